@@ -100,6 +100,61 @@ def run(F, R, tier):
         ok = bool(creators) and all(len(x[2]) == 2 and x[2][1][0] == "const" and x[2][1][1] == gs for x in creators)
         R.ob("globals-size", "%s builds globals with GLOBALS_SIZE entries" % fn, ok and isinstance(gs, int),
              "the store handed to the VM is created by %s" % [M.show(x)[:60] for x in creators], F.loc(g))
+    # ---- the compiler continues from exactly the tables it is handed -----------------------------------------------------------------
+    # new_with_state installs the symbol table and the constant pool of the session as they are: anything it does *to* them
+    # (re-registering the built-ins, say, which replaces a user's binding of the same name) makes a later line see a state
+    # no earlier line produced.
+    nws = F.fn("compiler::Compiler::new_with_state")
+    if R.anchor("Compiler::new_with_state", nws):
+        body = H.body_inl(F, nws, keep=("new",))
+        pids = [p_["id"] for p_ in nws["hir"]["params"] if p_.get("k") == "bind"]
+
+        def is_state(e):
+            e = H.strip(e)
+            return H.local_id(e) in pids or (e.get("k") == "field" and e.get("name") in ("symtab", "constants"))
+        touched = []
+
+        def base_of(e):
+            e = H.strip(e)
+            while e.get("k") in ("field", "index", "ref") or (e.get("k") == "un" and e.get("op") == "*"):
+                e = H.strip(e["e"])
+            return e
+        for c in H.walk(body):
+            # any mutable borrow of (a part of) a parameter: the table is edited in place
+            if c.get("k") == "ref" and c.get("mut") and H.local_id(base_of(c["e"])) in pids:
+                touched.append("&mut " + H.render(c["e"])[:60])
+            if c.get("k") == "mcall" and is_state(c["recv"]) and c["m"] not in ("clone", "len", "is_empty"):
+                touched.append(H.render(c)[:70])
+            if c.get("k") in ("call", "mcall"):
+                for a in c.get("args", []):
+                    if a.get("k") == "ref" and a.get("mut") and is_state(a["e"]):
+                        touched.append(H.render(c)[:70])
+        stores = {}
+        for x in H.walk(body):
+            if x.get("k") == "assign" and H.strip(x["l"]).get("k") == "field" and H.strip(x["l"]).get("name") in ("symtab", "constants"):
+                stores[H.strip(x["l"])["name"]] = H.local_id(H.strip(x["r"]))
+            if x.get("k") == "struct":
+                for fd in x.get("fields", []):
+                    if fd.get("name") in ("symtab", "constants") and "e" in fd:
+                        stores[fd["name"]] = H.local_id(H.strip(fd["e"]))
+        ok = not touched and len(pids) == 2 and stores.get("symtab") == pids[0] and stores.get("constants") == pids[1]
+        R.ob("state-handed-over-unchanged", "Compiler::new_with_state stores the symbol table and the constant pool it is given, untouched", ok,
+             "modified on the way: %s" % touched if touched else "fields set from the parameters: %s" % {k: (v in pids) for k, v in stores.items()}, F.loc(nws))
+    vws = F.fn("vm::interpreter::VM::new_with_global_store")
+    if R.anchor("VM::new_with_global_store", vws):
+        body = H.body_inl(F, vws, keep=("new",))
+        pids = [p_["id"] for p_ in vws["hir"]["params"] if p_.get("k") == "bind"]
+        gl = None
+        for x in H.walk(body):
+            if x.get("k") == "assign" and H.strip(x["l"]).get("k") == "field" and H.strip(x["l"]).get("name") == "globals":
+                gl = H.local_id(H.strip(x["r"]))
+            if x.get("k") == "struct":
+                for fd in x.get("fields", []):
+                    if fd.get("name") == "globals" and "e" in fd and H.local_id(H.strip(fd["e"])) in pids:
+                        gl = H.local_id(H.strip(fd["e"]))
+        touched = [H.render(c)[:70] for c in H.walk(body) if c.get("k") == "mcall" and H.local_id(H.strip(c["recv"])) in pids[1:] and c["m"] not in ("clone", "len", "is_empty")]
+        R.ob("state-handed-over-unchanged", "VM::new_with_global_store installs the global store it is given, untouched", len(pids) == 2 and gl == pids[1] and not touched,
+             "modified on the way: %s" % touched if touched else "", F.loc(vws))
     # ---- the session's constant pool and global store only grow ------------------------------------------------------------------
     # Code of an accepted line stays alive in closures and refers to constants by pool index and to globals by slot: the
     # REPL driver (main.rs) never shrinks or reorders a Vec<Rc<Object>> it carries from line to line (truncate / clear /
